@@ -312,6 +312,37 @@ inductive FitsT (enc : Enc) : Bool → Ty → Node → Prop where
   | mapOnLeaf {b : Bool} {t : Ty} {l : Leaf} : FitsT enc b (.map t) (.leaf l)
   | stOnLeaf {b : Bool} {fs : List (Bytes × Ty)} {l : Leaf} : FitsT enc b (.st fs) (.leaf l)
 
+/-- the complement of `FitsT`: the (type, value) pair contains a combination on which the two paths
+are NOT claimed to agree.  Every atomic combination listed here has a witness on which the modelled
+paths (and the real code) do disagree, see `C02_divergent_*` in Props/C02. -/
+inductive Bad (enc : Enc) : Bool → Ty → Node → Prop where
+  /-- `any` presents an object as a map on the tape path, as the bare token sequence on the stream path -/
+  | anyObj {b : Bool} {dfs : List (Bytes × Op × Node)} : Bad enc b .any (.obj dfs)
+  | anyArr {b : Bool} {vs : List Node} : anyOks vs = false → Bad enc b .any (.arr vs)
+  /-- `any` on a header value: the body (tape) / the name (stream) -/
+  | anyHdr {b : Bool} {n : Bytes} {body : Node} : Bad enc b .any (.hdr n body)
+  /-- an enum requested for a container: the tape path takes the first element as the variant -/
+  | enObj {b : Bool} {vs : List Bytes} {dfs : List (Bytes × Op × Node)} : Bad enc b (.en vs) (.obj dfs)
+  | enArr {b : Bool} {vs : List Bytes} {xs : List Node} : Bad enc b (.en vs) (.arr xs)
+  /-- a sequence requested for something that is not an array: the stream path ignores the current token -/
+  | seqLeaf {b : Bool} {t : Ty} {l : Leaf} : Bad enc b (.seq t) (.leaf l)
+  | seqObj {b : Bool} {t : Ty} {dfs : List (Bytes × Op × Node)} : Bad enc b (.seq t) (.obj dfs)
+  | seqHdr {b : Bool} {t : Ty} {n : Bytes} {body : Node} : Bad enc b (.seq t) (.hdr n body)
+  /-- a map / struct requested for a non-empty array (tape: the synthetic `remainder` key) or a header value -/
+  | mapArr {b : Bool} {t : Ty} {x : Node} {xs : List Node} : Bad enc b (.map t) (.arr (x :: xs))
+  | mapHdr {b : Bool} {t : Ty} {n : Bytes} {body : Node} : Bad enc b (.map t) (.hdr n body)
+  | stArr {b : Bool} {fs : List (Bytes × Ty)} {x : Node} {xs : List Node} : Bad enc b (.st fs) (.arr (x :: xs))
+  | stHdr {b : Bool} {fs : List (Bytes × Ty)} {n : Bytes} {body : Node} : Bad enc b (.st fs) (.hdr n body)
+  /-- `Property` outside field position (array element, nested `Property`) -/
+  | propElem {t : Ty} {v : Node} : Bad enc false (.prop t) v
+  | opt {b : Bool} {t : Ty} {v : Node} : Bad enc b t v → Bad enc b (.opt t) v
+  | prop {t : Ty} {v : Node} : Bad enc false t v → Bad enc true (.prop t) v
+  | seqElem {b : Bool} {t : Ty} {vs : List Node} {v : Node} : v ∈ expandNodes vs → Bad enc false t v → Bad enc b (.seq t) (.arr vs)
+  | mapElem {b : Bool} {t : Ty} {dfs : List (Bytes × Op × Node)} {k : Bytes} {o : Op} {v : Node} :
+      (k, o, v) ∈ dfs → Bad enc true t v → Bad enc b (.map t) (.obj dfs)
+  | stElem {b : Bool} {fs : List (Bytes × Ty)} {dfs : List (Bytes × Op × Node)} {k : Bytes} {o : Op} {v : Node} {i : Nat} {t : Ty} :
+      (k, o, v) ∈ dfs → lookupIdx (decode enc k) fs 0 = some (i, t) → Bad enc true t v → Bad enc b (.st fs) (.obj dfs)
+
 /-! ### parser outputs a document stands for -/
 
 def Leaf.rtok (l : Leaf) : RTok := if l.quoted then .quo l.bytes else .unq l.bytes
